@@ -391,6 +391,50 @@ def extra_tables(w, info):
     info["vDefaultChain"] = vch
     info["kDefaultChain"] = kch
     datetime_tables(w, info)
+    numbers_tables(w, info)
+
+
+def numbers_tables(w, info):
+    src = strip_comments(read("crates/toml_edit/src/parser/numbers.rs"))
+    k = src.find("#[cfg(test)]")
+    src = src[:k] if k >= 0 else src
+    f = find_fn(src, "float")
+    m = re.search(r"\.verify\(\|f: &f64\| (.*?)\),", f)
+    if not m:
+        raise TranslateError("numbers.rs float: verify predicate not found")
+    w(f'def float_verify : String := "{m.group(1).strip()}"')
+    if "cut_err(" not in f or "special_float" not in f:
+        raise TranslateError("numbers.rs float: shape")
+    f = find_fn(src, "integer")
+    arms = re.findall(r'Some\(b"(0.)"\) => cut_err\(([a-z_]+)\.try_map\(\|s\| i64::from_str_radix\(&s\.replace\(\'_\', ""\), (\d+)\)\)\)', f)
+    if len(arms) != 3:
+        raise TranslateError(f"numbers.rs integer: radix arms {arms}")
+    w("def integer_arms : List (String × String × Nat) := [" + ", ".join(f'("{a}", "{b}", {c})' for a, b, c in arms) + "]")
+    if "_ => dec_int.and_then(cut_err(rest" not in f or "s.replace('_', \"\").parse()" not in f:
+        raise TranslateError("numbers.rs integer: decimal arm")
+    f = find_fn(src, "special_float")
+    if "Some(b'+') | None => f" not in f or "Some(b'-') => -f" not in f:
+        raise TranslateError("numbers.rs special_float: sign arms")
+    f = find_fn(src, "nan")
+    if "f64::NAN.copysign(1.0)" not in f:
+        raise TranslateError("numbers.rs nan: value")
+    # toml_write float writers
+    src = strip_comments(read("crates/toml_write/src/value.rs"))
+    for ty in ("f32", "f64"):
+        i = src.index(f"impl WriteTomlValue for {ty} ")
+        blk = src[i:src.index("impl", i + 10)]
+        arms = re.findall(r'\(([a-z_]+), ([a-z_]+), ([a-z_]+)\) => (?:write!\(writer, "([^"]*)"\)|\{)', blk)
+        inner = re.findall(r'write!\(writer, "(\{self\}[^"]*)"\)', blk)
+        cond = re.search(r"if (self % 1\.0 == 0\.0)", blk)
+        w(f"def write_{ty}_arms : List (String × String × String × String) := [" +
+          ", ".join(f'("{a}", "{b}", "{c}", "{d}")' for a, b, c, d in arms) + "]")
+        w(f"def write_{ty}_inner : List String := [" + ", ".join(f'"{x}"' for x in inner) + "]")
+        w(f"def write_{ty}_integral_test : Bool := {'true' if cond else 'false'}")
+    for ty in ("i64",):
+        i = src.index(f"impl WriteTomlValue for {ty} ")
+        blk = src[i:src.index("impl", i + 10)]
+        if 'write!(writer, "{self}")' not in blk:
+            raise TranslateError(f"toml_write value.rs: {ty} writer")
 
 
 def datetime_tables(w, info):
